@@ -6,7 +6,8 @@
 (* property text made exact is consistent and not vacuous) and, with -simulate, produces scenarios  *)
 (* (configuration + per-trial script) that the harness plays through the real Study.optimize.       *)
 EXTENDS StudyLoop
-CONSTANTS MaxN, Jobs, Kinds, WithPre, RepKinds, Misbehave
+CONSTANTS MaxN, Jobs, Kinds, WithPre, RepKinds, Misbehave, AskMisbehave,
+          Swallow     \* TRUE only in the negative spec test: optimize may return although a worker failed (defect F12)
 
 VARIABLE c
 vars == <<trials, i, stop, cbA, cbB, raised, phase, done, c>>
@@ -20,6 +21,7 @@ Outcomes == {Outcome("ret", kind, s, rep) : kind \in (Kinds \cap RetKinds), s \i
        \cup {Outcome("raise", kind, s, rep) : kind \in RaiseKinds, s \in {0, 1}, rep \in Reports}
 InPool(o, nobj) == WFOutcome(o, nobj) /\ o.rep \in RepsOf(o.kind)
 SamplerActs  == IF Misbehave THEN {"ok", "raise"} ELSE {"ok"}
+AskActs      == IF AskMisbehave THEN {"ok", "raise"} ELSE {"ok"}
 CallbackActs == IF Misbehave THEN {"ok", "stop", "raise"} ELSE {"ok"}
 
 Init == c \in Configs /\ LoopInit(c)
@@ -34,15 +36,19 @@ MTell(w, sa)      == W(w) /\ Tell(c, w, sa) /\ UNCHANGED c
 MCallback(w, act) == W(w) /\ Callback(c, w, act) /\ UNCHANGED c
 MNotice(w)        == W(w) /\ Notice(c, w) /\ UNCHANGED c
 MFinish           == Finish(c) /\ UNCHANGED c
+\* the modelled defect F12: the submit loop ends and the executor joins the workers without looking at their results
+MFinishSwallow    == Swallow /\ ~done /\ Quiet(c) /\ (stop \/ i = c.n) /\ done' = TRUE
+                     /\ UNCHANGED <<trials, i, stop, cbA, cbB, raised, phase, c>>
 Terminated        == done /\ UNCHANGED vars          \* so that a stuck unfinished call shows as a deadlock
 
 Next == \/ \E w \in AllWorkers : MSubmit(w)
-        \/ \E w \in AllWorkers, sa \in SamplerActs : MAsk(w, sa)
+        \/ \E w \in AllWorkers, sa \in AskActs : MAsk(w, sa)
         \/ \E w \in AllWorkers : MRun(w)
         \/ \E w \in AllWorkers, sa \in SamplerActs : MTell(w, sa)
         \/ \E w \in AllWorkers, act \in CallbackActs : MCallback(w, act)
         \/ \E w \in AllWorkers : MNotice(w)
         \/ MFinish
+        \/ MFinishSwallow
         \/ Terminated
 Spec == Init /\ [][Next]_vars
 
